@@ -36,7 +36,7 @@ RULE = ('A case is one (directory recipe, mode) pair: a directory of 4-24 files 
         'listings for the two dirWalk orders, random abstract batches/schedules, recorded real pool schedules.')
 ASSUMPTIONS = [
     'single_*_to_las is a deterministic function of (input path, bytes, options): no dependence on time (other than the CREA. line), environment or previous calls',
-    'LIS conversions use the empty channel set (non-empty subsets fail per file: F19, property C11)',
+    'channel subsets: most directories use the empty channel set; the `channels` directories use non-empty subsets in which every log pass keeps at least one requested channel (open finding C06-indirect-x-empty-channel-list — implied X from uninitialised memory when a subset selects nothing — is deliberately not touched)',
     'the process schedules produced by the OS during the run are a sample of all schedules; the theorem covers all schedules of the abstract model only',
     'posix paths; file names are Latin-1/ASCII',
 ]
@@ -428,6 +428,79 @@ def fixed_recipes():
     ]
 
 
+# channels recorded by the bundled examples (only names used by the channel-subset recipes)
+L37 = 'LIS/data/DILLSON-1_WELL_LOGS_FILE-037.LIS'
+RP206 = 'RP66V1/data/206_05a-_3_DWL_DWL_WIRE_258276498.DLIS'
+CHANNELS_OF = {
+    'LIS/data/DILLSON-1_WELL_LOGS_FILE-013.LIS': ['SP', 'GR', 'ILD', 'SFLU', 'TENS', 'CALI'],
+    L37: ['NPHI', 'LITH', 'LL', 'TENS', 'CALI'],
+    'LIS/data/DILLSON-1_WELL_LOGS_FILE-049.LIS': ['DEVI', 'HAZI', 'RB'],
+    'RP66V1/data/BASIC_FILE.dlis': ['GR', 'TENS', 'ETIM', 'DHTN'],
+    RP206: ['TDEP', 'ETIM', 'LMVL', 'TENS_SL'],
+    'BIT/data/29_10-_3Z_dwl_DWL_WIRE_1644659.bit': ['SP  ', 'GR  ', 'CAL ', 'TEN ', 'RT  '],
+}
+
+
+def fixed_channel_recipes():
+    """Deterministic directories converted with a NON-EMPTY channel subset and a frame slice over files that do not all
+    record the same channels, named so that a file lacking a requested channel sorts before one that has it.  The
+    sequential driver passes one `channels` set object to every file: nothing a file does with it may reach the next.
+    (Every log pass keeps at least one requested channel: the open finding C06-indirect-x-empty-channel-list — implied X
+    column from uninitialised memory when a subset selects no channel — is deliberately not touched.)"""
+    L13 = 'LIS/data/DILLSON-1_WELL_LOGS_FILE-013.LIS'; L49 = 'LIS/data/DILLSON-1_WELL_LOGS_FILE-049.LIS'
+    B = 'RP66V1/data/BASIC_FILE.dlis'; BT = 'BIT/data/29_10-_3Z_dwl_DWL_WIRE_1644659.bit'
+    f = lambda name, src, dmg=None: {'name': name, 'src': src, 'damage': dmg}
+    mk = lambda fmt, files, channels, opt: {'fmt': fmt, 'files': files, 'opt': opt, 'tag': 'fixed-channels-' + fmt, 'recurse': False,
+                                            'shape': 'channels', 'channels': sorted(channels)}
+    return [
+        mk('lis', [f('A_TRUNCATED.LIS', L13, {'kind': 'trunc', 'at': len(_example(L13)) // 3, 'where': 'deep'}),
+                   f('NOTES.txt', L13, {'kind': 'foreign', 'what': 'text', 'seed': 1, 'size': 300}),
+                   f('a_037.lis', L37), f('b_049.lis', L49), f('c_013.lis', L13), f('d_037.lis', L37), f('e_013.lis', L13)],
+           ['DEVI', 'GR', 'NPHI', 'SP'], ['slice', 0, 40, 2]),
+        mk('lis', [f('a_049.lis', L49), f('b_013.lis', L13), f('c_037.lis', L37)], ['DEVI', 'ILD', 'LITH', 'TENS', 'ZZZZ'], ['sample', 12]),
+        mk('rp', [f('a_min.dlis', 'RP66V1/data/MINIMAL_FILE.dlis'), f('b_206.DLIS', RP206), f('c_basic.dlis', B),
+                  f('d_hdr.dlis', 'RP66V1/data/BASIC_FILE_WITH_TWO_VISIBLE_RECORDS_NO_IFLRS.dlis'), f('e_basic.dlis', B)],
+           ['ETIM', 'GR', 'TDEP', 'ZZZZ'], ['sample', 8]),
+        mk('bit', [f('a_nosp.bit', BT, {'kind': 'subst', 'find': b'SP  GR  '.hex(), 'repl': b'SQ  GR  '.hex(), 'nth': 0}),
+                   f('b.bit', BT), f('c_trunc.bit', BT, {'kind': 'trunc', 'at': 60000, 'where': 'deep'})],
+           ['CAL ', 'GR  ', 'SP  '], ['slice', 0, 60, 3]),
+    ]
+
+
+def gen_channel_recipe(ctx, fmt, tag=''):
+    """Random directory with a channel subset: every source used contributes at least one requested channel (see above),
+    plus channels only some files have and an unknown name; damaged files keep their channel list (truncation, foreign)."""
+    rng = ctx.rng
+    srcs = {'lis': list(FMT['lis']['valid']) + [L37], 'rp': ['RP66V1/data/BASIC_FILE.dlis', RP206] + FMT['rp']['valid'][:2],
+            'bit': FMT['bit']['valid']}[fmt]
+    n = rng.randint(3, 7)
+    files, used = [], []
+    for i in range(n):
+        src = rng.choice(srcs)
+        if src == RP206 and RP206 in used:
+            src = 'RP66V1/data/BASIC_FILE.dlis'          # the large example at most once
+        used.append(src)
+        dmg = None
+        x = rng.random()
+        if x < 0.15:
+            dmg = {'kind': 'trunc', 'at': rng.randrange(len(_example(src)) // 3, len(_example(src))), 'where': 'deep'}
+        elif x < 0.3:
+            dmg = {'kind': 'foreign', 'what': rng.choice(['text', 'random', 'pdf']), 'seed': rng.randrange(1 << 30), 'size': rng.choice([12, 300, 5000])}
+        elif x < 0.35:
+            dmg = {'kind': 'empty'}
+        files.append({'name': '%s%d-%s%s' % (rng.choice('abc'), i, ''.join(rng.choice('xyz019') for _ in range(3)), rng.choice(FMT[fmt]['exts'][:2])),
+                      'src': src, 'damage': dmg})
+    chans = set()
+    for src in set(used):
+        own = CHANNELS_OF.get(src)
+        if own:
+            chans |= set(rng.sample(own, rng.randint(1, min(3, len(own)))))
+    if rng.random() < 0.5:
+        chans.add('ZZZZ')
+    opt = rng.choice([['slice', 0, 40, 2], ['slice', 3, 90, 5], ['sample', 8], ['sample', 20]])
+    return {'fmt': fmt, 'files': files, 'opt': opt, 'tag': tag, 'recurse': False, 'shape': 'channels', 'channels': sorted(chans)}
+
+
 FIXED_MODES = ['seq', 'j1', 'j2']
 
 
@@ -609,6 +682,7 @@ def _child_main(conn, spec):
         mod = importlib.import_module(FMT[spec['fmt']]['module'])
         fn = getattr(mod, FMT[spec['fmt']]['func'])
         fs = _frame_slice(spec['opt'])
+        chs = set(spec.get('channels') or [])        # ONE set object handed to the batch function, as process_to_las does
         mode = spec['mode']
         if spec.get('log'):
             _LOG['fd'] = os.open(spec['log'], os.O_WRONLY | os.O_APPEND | os.O_CREAT, 0o644)
@@ -616,13 +690,14 @@ def _child_main(conn, spec):
             fn = _logged_conv
         rec = bool(spec.get('recurse'))
         if mode == 'seq':
-            ret = WriteLAS.convert_dir_or_file_to_las(spec['din'], spec['dout'], rec, 'first', fs, set(), 16, '.3f', fn)
+            ret = WriteLAS.convert_dir_or_file_to_las(spec['din'], spec['dout'], rec, 'first', fs, chs, 16, '.3f', fn)
         elif mode == 'single':
-            ret = WriteLAS.convert_dir_or_file_to_las(spec['file'], spec['fout'], False, 'first', fs, set(), 16, '.3f', fn)
+            ret = WriteLAS.convert_dir_or_file_to_las(spec['file'], spec['fout'], False, 'first', fs, chs, 16, '.3f', fn)
         else:
             ret = WriteLAS.convert_dir_or_file_to_las_multiprocessing(
-                spec['din'], spec['dout'], rec, 'first', fs, set(), 16, '.3f', int(mode[1:]), fn)
-        conn.send(('ok', _canon_results(ret, spec['din'])))
+                spec['din'], spec['dout'], rec, 'first', fs, chs, 16, '.3f', int(mode[1:]), fn)
+        after = sorted(x if isinstance(x, str) else repr(x) for x in chs)
+        conn.send(('ok', _canon_results(ret, spec['din']), {'channels_after': after}))
     except BaseException as e:           # noqa: anything that escapes the batch is the observation
         try:
             conn.send(('exc', '%s: %s' % (type(e).__name__, str(e)[:300])))
@@ -701,7 +776,12 @@ def canon_file(path):
         if ln.startswith(b'SOURCE.'):
             src = ln[7:].split(b' : ')[0].strip().decode('latin-1')
     body = b'\n'.join(keep)
-    return hashlib.sha1(body).hexdigest() + ':%d' % len(body), src
+    cols = ()
+    for ln in lines:
+        if ln.startswith(b'~A'):
+            cols = tuple(t.decode('latin-1') for t in ln.split()[1:])
+            break
+    return hashlib.sha1(body).hexdigest() + ':%d' % len(body), src, cols
 
 
 def read_tree(dout):
@@ -713,6 +793,32 @@ def read_tree(dout):
             p = os.path.join(root, fn)
             tree[os.path.relpath(p, dout)] = canon_file(p)
     return tree
+
+
+def xgain_only(pa, pb, xaxes):
+    """True when the batch output `pa` differs from the stand-alone output `pb` ONLY in the comment line
+    '# Requested Channels in this LAS file [n]: ...' and there only by additional names that are X axis idents of
+    outputs of the directory (strict class of C12-channels-arg-gains-x-axis)."""
+    try:
+        a = [ln for ln in open(pa, 'rb').read().split(b'\n') if not ln.startswith(b'CREA.')]
+        b = [ln for ln in open(pb, 'rb').read().split(b'\n') if not ln.startswith(b'CREA.')]
+    except OSError:
+        return False
+    if len(a) != len(b):
+        return False
+    tag = b'# Requested Channels in this LAS file'
+    seen = False
+    for x, y in zip(a, b):
+        if x == y:
+            continue
+        if not (x.startswith(tag) and y.startswith(tag) and b':' in x and b':' in y):
+            return False
+        sx = {t.decode('latin-1') for t in x.split(b':', 1)[1].strip().split(b',')}
+        sy = {t.decode('latin-1') for t in y.split(b':', 1)[1].strip().split(b',')}
+        if not (sy < sx and all(t.strip() in xaxes for t in sx - sy)):
+            return False
+        seen = True
+    return seen
 
 
 def first_diff(pa, pb):
@@ -743,12 +849,12 @@ def run_directory(recipe, base, modes, log_mode=None):
     specs = []
     for i, nm in enumerate(names):
         specs.append({'fmt': recipe['fmt'], 'opt': recipe['opt'], 'mode': 'single', 'file': os.path.join(din, nm), 'din': din,
-                      'fout': os.path.join(base, 'single', '%02d' % i, nm)})
+                      'fout': os.path.join(base, 'single', '%02d' % i, nm), 'channels': recipe.get('channels')})
     singles = run_children(specs, parallel=12)
     mspecs = []
     for m in modes:
         s = {'fmt': recipe['fmt'], 'opt': recipe['opt'], 'mode': m, 'din': din, 'dout': os.path.join(base, 'out_' + m),
-             'recurse': bool(recipe.get('recurse'))}
+             'recurse': bool(recipe.get('recurse')), 'channels': recipe.get('channels')}
         if log_mode and m == log_mode:
             s['log'] = os.path.join(base, 'sched_%s.log' % m)
         mspecs.append(s)
@@ -818,10 +924,30 @@ def evaluate(ctx, recipe, run, modes):
     groups = f14_groups(recipe, run)
     f14_keys = {k for k, v in collisions.items() if any(set(c[0] for c in v) <= set(g) for g in groups)}
     f14_detail = []
+    # --- the caller's channel set must come back unchanged (the sequential driver hands ONE set object to every file)
+    want_ch = sorted(recipe.get('channels') or [])
+    xaxes = {v[2][0].strip() for nm in names for v in run['single_tree'][nm].values() if len(v) > 2 and v[2]}
+    gained = []
+    def check_channels(st, case, label):
+        if not want_ch or st[0] != 'ok' or len(st) < 3:
+            return
+        after = st[2].get('channels_after')
+        if after == want_ch:
+            return
+        ctx.count('oracle_cases')
+        removed = sorted(set(want_ch) - set(after)); added = sorted(set(after) - set(want_ch))
+        if not removed and fmt in ('rp', 'bit') and all(a.strip() in xaxes for a in added):
+            gained.append('%s: +%s' % (label, added))        # strict class of C12-channels-arg-gains-x-axis
+        else:
+            fails.append((case, "the caller's channels argument was modified by the %s run: requested %s, afterwards %s "
+                                '(removed %s, added %s)' % (label, want_ch, after, removed, added), None))
+    for nm in names:
+        check_channels(run['single'][nm], dict(base_case, mode='single', file=nm), 'single:' + nm)
     for m in modes:
         ctx.count('oracle_cases')
         st = run['modes'][m]
         case = dict(base_case, mode=m)
+        check_channels(st, case, m)
         if st[0] != 'ok':
             fails.append((case, 'batch %s aborted: %s %s' % (m, st[0], st[1]), None))
             continue
@@ -836,14 +962,26 @@ def evaluate(ctx, recipe, run, modes):
         if missing or extra or len(rows) != len(names):
             fails.append((case, 'one result per input file violated: %d results for %d files, missing %s extra %s' % (
                 len(rows), len(names), missing[:4], extra[:4]), None))
+        tree = run['trees'][m]
+        xg_keys, xg_names = set(), set()
+        if want_ch and m == 'seq' and fmt in ('rp', 'bit'):
+            # sequential driver + RP66V1/BIT writer + channel subset: the shared set has gained the X idents of earlier files
+            for key in set(tree) & set(union):
+                if key not in collisions and tree[key] != union[key][0][1]:
+                    nm0 = union[key][0][0]
+                    if xgain_only(os.path.join(run['base'], 'out_' + m, key),
+                                  os.path.join(run['base'], 'single', '%02d' % names.index(nm0), key), xaxes):
+                        xg_keys.add(key); xg_names.add(nm0)
         for nm in names:
             if nm in got and nm in single and got[nm] != single[nm]:
+                if nm in xg_names and got[nm][:3] + got[nm][4:] == single[nm][:3] + single[nm][4:]:
+                    gained.append('%s: size_output of %s is %d, alone %d' % (m, nm, got[nm][3], single[nm][3]))
+                    continue
                 if any(nm in g for g in groups) and got[nm][:3] + got[nm][4:] == single[nm][:3] + single[nm][4:]:
                     # size_output is os.path.getsize of the shared output path after the other input overwrote it: F14 itself
                     f14_detail.append('%s: size_output of %s is %d, alone %d' % (m, nm, got[nm][3], single[nm][3]))
                     continue
                 fails.append((case, 'result of %s differs from converting it on its own: %r vs %r' % (nm, got[nm], single[nm]), None))
-        tree = run['trees'][m]
         if set(tree) != set(union):
             fails.append((case, 'output file set differs from the union of the stand-alone conversions: missing %s extra %s' % (
                 sorted(set(union) - set(tree))[:4], sorted(set(tree) - set(union))[:4]), None))
@@ -856,10 +994,18 @@ def evaluate(ctx, recipe, run, modes):
                     fails.append((case, 'two inputs write the same output path %s: %s' % (key, [c[0] for c in collisions[key]]), None))
                 continue
             nm, val = union[key][0]
+            if key in xg_keys:
+                gained.append("%s: %s lists the X idents of earlier files in '# Requested Channels'" % (m, key))
+                continue
             if tree[key] != val:
                 i = names.index(nm)
                 d = first_diff(os.path.join(run['base'], 'out_' + m, key), os.path.join(run['base'], 'single', '%02d' % i, key))
                 fails.append((case, 'output %s of %s differs from the stand-alone conversion (%s)' % (key, nm, d), None))
+    if gained:
+        fails.append((dict(base_case, mode=None, what='channels-arg'),
+                      "the caller's channels set is extended in place with the X axis ident of every frame array written "
+                      '(WriteLAS._add_x_axis_to_channels_to_write); the sequential driver shares that set, so later files '
+                      'differ from their stand-alone conversion: %s' % '; '.join(gained[-3:] + gained[:5]), 'C12-channels-arg-gains-x-axis'))
     if f14_keys:
         ctx.count('oracle_cases')
         fails.append((dict(base_case, mode=None),
@@ -869,7 +1015,7 @@ def evaluate(ctx, recipe, run, modes):
 
 
 def summary(recipe):
-    return {'fmt': recipe['fmt'], 'shape': recipe.get('shape', 'random'), 'recurse': bool(recipe.get('recurse')), 'n': len(recipe['files']), 'opt': recipe['opt'],
+    return {'fmt': recipe['fmt'], 'channels': recipe.get('channels'), 'shape': recipe.get('shape', 'random'), 'recurse': bool(recipe.get('recurse')), 'n': len(recipe['files']), 'opt': recipe['opt'],
             'damaged': [[i, f['name'], f['damage']['kind']] for i, f in enumerate(recipe['files']) if f['damage']]}
 
 
@@ -1205,7 +1351,7 @@ def plan(ctx):
     prefix-related names and late-failing files, recursive trees with same-named files, then random directories."""
     out = []
     for fmt, nr in (('rp', ctx.n(11, 48)), ('lis', ctx.n(6, 22)), ('bit', ctx.n(6, 22))):
-        out.append((fmt, ['f14'] + ['prefix'] * ctx.n(2, 6) + ['recursive'] * ctx.n(2, 6) + ['random'] * nr))
+        out.append((fmt, ['f14'] + ['prefix'] * ctx.n(2, 6) + ['recursive'] * ctx.n(2, 6) + ['channels'] * ctx.n(1, 5) + ['random'] * nr))
     return out
 
 
@@ -1247,10 +1393,11 @@ def run(ctx):
             shutil.rmtree(os.path.join(base, 'nm_' + fmt), ignore_errors=True)
     modes = modes_for(ctx)
     k = 0
-    for recipe in fixed_recipes():
+    for recipe in fixed_recipes() + fixed_channel_recipes():
         dbase = os.path.join(base, 'fx%d' % k); k += 1
         r = run_directory(recipe, dbase, FIXED_MODES, log_mode='j2' if getattr(ctx, 'model_available', True) else None)
-        check_fixed_not_vacuous(ctx, recipe, r)
+        if recipe['shape'] == 'fixed':
+            check_fixed_not_vacuous(ctx, recipe, r)
         fails, single = evaluate(ctx, recipe, r, FIXED_MODES)
         record(ctx, recipe, r, FIXED_MODES, fails, single)
         ctx.count('directories_fixed')
@@ -1267,6 +1414,8 @@ def run(ctx):
                 recipe = gen_prefix_recipe(ctx, fmt, dbase, tag=tag)
             elif shape == 'recursive':
                 recipe = gen_recursive_recipe(ctx, fmt, dbase, tag=tag)
+            elif shape == 'channels':
+                recipe = gen_channel_recipe(ctx, fmt, tag=tag)
             else:
                 nfiles = None
                 if shape == 'random':
